@@ -79,7 +79,7 @@ static void body(void) {
          * compressor takes per block (raw / RLE / compressed, new / repeated / no Huffman table, FSE table modes) meets every
          * predecessor.  Block size = the configuration's (1 KiB with the small windows; 128 KiB for the level-only entries,
          * which are run at three levels).  Types: 0 skewed bytes over [0,200)+{201}; 1 the same with 200 in place of 201;
-         * 2 skewed over [0,199); 3 uniform noise; 4 run of 'z'; 5 run of 0x00; 6 words; 7 skewed over [0,12); 8 back-to-back copies of earlier data followed by text over another alphabet; 9 nearly incompressible literals over all byte values with a few matches. */
+         * 2 skewed over [0,199); 3 uniform noise; 4 run of 'z'; 5 run of 0x00; 6 words; 7 skewed over [0,12); 8 back-to-back copies of earlier data followed by text over another alphabet; 9 nearly incompressible literals over all byte values with a few matches; 10 almost a run. */
         size_t blk = (entry >= 2 && entry <= 5) ? 128 * 1024 : B;
         if (entry >= 2 && entry <= 5 && !(p.level == 1 || p.level == 3 || p.level == 7)) { vx_obs_u64(53); return; }
         /* block-size class for the parameter-vector entries: the configuration's own (1 KiB), or 8 KiB blocks with and without targetCBlockSize 1340 (sub-blocks) */
@@ -88,8 +88,8 @@ static void body(void) {
         if (cls == 3) { p.windowLog = 17; W = B = blk = 128 * 1024; p.targetCBlockSize = 1340; p.maxBlockSize = 0; }
         else if (cls) { p.windowLog = 13; W = 8192; B = 8192; blk = 8192; p.targetCBlockSize = cls == 2 ? 1340 : 0; if (p.maxBlockSize) p.maxBlockSize = 0; }
         int big128 = !vx_thorough && blk == 128 * 1024 && cls != 3;      /* quick tier: 128 KiB blocks with two blocks out of six characters */
-        static const int SUB6[] = {0, 1, 3, 4, 8, 9};
-        int nb = (cls || big128) ? 2 : 2 + vx_choose(2), ty[3]; for (int i = 0; i < nb; i++) ty[i] = (cls == 3 && i == 1) ? 8 : big128 ? SUB6[vx_choose(6)] : (i == 2 && !vx_thorough) ? SUB6[vx_choose(6)] : vx_choose(10);
+        static const int SUB6[] = {0, 1, 3, 4, 8, 9, 10};
+        int nb = (cls || big128) ? 2 : 2 + vx_choose(2), ty[3]; for (int i = 0; i < nb; i++) ty[i] = (cls == 3 && i == 1) ? 8 : big128 ? SUB6[vx_choose(7)] : (i == 2 && !vx_thorough) ? SUB6[vx_choose(7)] : vx_choose(11);
         static const int D0[] = {0, -1, 1}; int d0 = D0[vx_deviate(3)]; int tailKind = vx_deviate(3);   /* first block exactly / one short / one over; last block full, half, 300 bytes */
         size_t pos = 0; uint32_t sd = 77;
         for (int i = 0; i < nb; i++) {
@@ -103,6 +103,7 @@ static void body(void) {
                 case 3: q[k] = (u8)(r >> 3); break;
                 case 4: q[k] = 'z'; break;
                 case 5: q[k] = 0; break;
+                case 10: q[k] = (k == len * 3 / 4 + 5) ? 'Z' : (k + 2 == len) ? 'x' : (k == len / 2 + 40) ? 0 : 'z'; break;      /* 10: almost a run: three stray bytes whose bits are subsets of the run byte's, away from the block start (compresses to a handful of bytes; must not become a run block) */
                 case 6: q[k] = (u8)("the block of words and the words of the block "[(k + (r & 3) * (k % 7 == 0)) % 47]); break;
                 case 7: q[k] = (u8)(v % 12); break;
                 case 9: q[k] = (k % 512 >= 448 && k >= 512) ? q[k - 300] : (u8)((r & 3) ? (r >> 2) & 0x3f : (r >> 2) & 0xff); break;      /* 9: all 256 byte values, 64 of them three times as likely (a Huffman table does not pay for itself, re-using one does), with a 64-byte match every 512 bytes */
